@@ -95,6 +95,234 @@ def corpus():
     b.add_effect(n, w(v), forall=(v,))
     p.add_action(a); p.add_action(b); p.add_goal(em.Equals(n, 3))
     out.append(sx.HandProblem(p, "forall-same-target"))
+    # 5./6. one-sided bounds: a plan can leave the bound in the middle and come back, or leave it at the end
+    for label, mk in (("lower-only-int", lambda: tm.IntType(0, None)), ("upper-only-real", lambda: tm.RealType(None, F(3, 2)))):
+        env, em, tm, T, p, o1, o2 = base(label)
+        h = Fluent("h", mk(), environment=env)
+        g = Fluent("g", tm.BoolType(), environment=env)
+        p.add_fluent(h, default_initial_value=0 if label == "lower-only-int" else 1)
+        p.add_fluent(g, default_initial_value=False)
+        up_, dn = InstantaneousAction("up", _env=env), InstantaneousAction("down", _env=env)
+        up_.add_increase_effect(h, 1); up_.add_effect(g, True)
+        dn.add_decrease_effect(h, 1); dn.add_effect(g, True)
+        p.add_action(up_); p.add_action(dn); p.add_goal(g)
+        out.append(sx.HandProblem(p, label))
+    return out
+
+
+# ---------------------------------------------------------------------- small "meta" problems (half-bounded types, simulated effects)
+OPS = {"<=": lambda a, b: a <= b, ">=": lambda a, b: a >= b, "==": lambda a, b: a == b}
+
+
+def meta_problem(rng, with_sim):
+    """A parameterless instantaneous problem described by plain Python data (the input of `interpret`) and built through
+    the real API.  Numeric fluents are fully bounded, lower-only, upper-only (int and real) or unbounded; with_sim adds
+    simulated effects (on bounded and unbounded fluents, alone or next to ordinary effects on other fluents)."""
+    kinds = [("int", 0, 3), ("int", 0, None), ("int", None, 3), ("real", None, F(5, 2)), ("real", F(-1), None), ("int", None, None)]
+    rng.shuffle(kinds)
+    fl = {}
+    for i, (k, lo, hi) in enumerate(kinds[:rng.randint(2, 4)]):
+        init = rng.choice([v for v in (F(0), F(1), F(2)) if (lo is None or lo <= v) and (hi is None or v <= hi)])
+        fl["n%d" % i] = (k, lo, hi, init if k == "real" else int(init))
+    fl["g"] = ("bool", None, None, False)
+    nums = [f for f in fl if fl[f][0] != "bool"]
+    acts = []
+    for ai in range(rng.randint(2, 3)):
+        act = {"name": "a%d" % ai, "pre": [], "effs": [], "sim": None}
+        if rng.random() < 0.3:
+            act["pre"].append((rng.choice(nums), rng.choice(["<=", ">="]), rng.randint(0, 2)))
+        targets = rng.sample(nums, rng.randint(1, min(2, len(nums))))
+        sim_targets = []
+        if with_sim and rng.random() < 0.8:
+            sim_targets = targets[:1] if rng.random() < 0.7 else targets
+        for f in targets:
+            if f in sim_targets:
+                continue
+            step = rng.choice([1, 2]) if fl[f][0] == "int" else rng.choice([F(1), F(3, 2)])
+            act["effs"].append((f, rng.choice(["inc", "inc", "dec", "assign"]), step))
+        if sim_targets:
+            deltas = [rng.choice([1, 2, -1, -2]) for _ in sim_targets]
+            src = rng.choice(nums)
+            mode = rng.choice(["add", "add", "copy"])
+            act["sim"] = (list(sim_targets), mode, deltas, src)
+        if rng.random() < 0.5 or ai == 0:
+            act["effs"].append(("g", "assign", True))
+        acts.append(act)
+    goal = [("g", "==", True)] if rng.random() < 0.8 else [(rng.choice(nums), ">=", 0)]
+    return {"fluents": fl, "actions": acts, "goal": goal}
+
+
+def interpret(meta, plan):
+    """Independent interpreter of the documented sequential semantics for meta problems: preconditions in the pre-state,
+    simulated + ordinary effects evaluated in the pre-state, bounded types (also one-sided) in every successor, goals
+    in the final state.  plan: action names in execution order.  Returns True (VALID) / False."""
+    fl = meta["fluents"]
+    st = {f: v[3] for f, v in fl.items()}
+    by_name = {a["name"]: a for a in meta["actions"]}
+
+    def in_bounds(state):
+        for f, (k, lo, hi, _) in fl.items():
+            if k != "bool" and ((lo is not None and state[f] < lo) or (hi is not None and state[f] > hi)):
+                return False
+        return True
+    if not in_bounds(st):
+        return None
+    for name in plan:
+        a = by_name[name]
+        if not all(OPS[op](st[f], c) for f, op, c in a["pre"]):
+            return False
+        new = dict(st)
+        if a["sim"] is not None:
+            targets, mode, deltas, src = a["sim"]
+            for t, d in zip(targets, deltas):
+                new[t] = (st[t] if mode == "add" else st[src]) + d
+        for f, kind, c in a["effs"]:
+            new[f] = c if kind == "assign" else (st[f] + c if kind == "inc" else st[f] - c)
+        if not in_bounds(new):
+            return False
+        st = new
+    return all(OPS[op](st[f], c) for f, op, c in meta["goal"])
+
+
+def build_meta(meta):
+    """the same problem through the real API"""
+    from unified_planning.environment import Environment
+    from unified_planning.model import Fluent, Problem, InstantaneousAction
+    from unified_planning.model.effect import SimulatedEffect
+    import warnings
+    env = Environment()
+    tm, em = env.type_manager, env.expression_manager
+    p = Problem("meta", env)
+    fexp = {}
+    for f, (k, lo, hi, init) in meta["fluents"].items():
+        ty = tm.BoolType() if k == "bool" else (tm.IntType(lo, hi) if k == "int" else tm.RealType(lo, hi))
+        fo = Fluent(f, ty, environment=env)
+        p.add_fluent(fo, default_initial_value=init)
+        fexp[f] = fo()
+    cmp_ = {"<=": em.LE, ">=": em.GE, "==": em.Equals}
+
+    def cond(f, op, c):
+        if meta["fluents"][f][0] == "bool":
+            return fexp[f] if c else em.Not(fexp[f])
+        return cmp_[op](fexp[f], c)
+
+    def const(f, v):
+        k = meta["fluents"][f][0]
+        return em.Bool(v) if k == "bool" else (em.Int(int(v)) if k == "int" else em.Real(F(v)))
+    for a in meta["actions"]:
+        act = InstantaneousAction(a["name"], _env=env)
+        for f, op, c in a["pre"]:
+            act.add_precondition(cond(f, op, c))
+        for f, kind, c in a["effs"]:
+            if kind == "assign":
+                act.add_effect(fexp[f], const(f, c))
+            elif kind == "inc":
+                act.add_increase_effect(fexp[f], const(f, c))
+            else:
+                act.add_decrease_effect(fexp[f], const(f, c))
+        if a["sim"] is not None:
+            targets, mode, deltas, src = a["sim"]
+
+            def fun(problem, state, params, targets=targets, mode=mode, deltas=deltas, src=src):
+                out = []
+                for t, d in zip(targets, deltas):
+                    base = state.get_value(fexp[t] if mode == "add" else fexp[src]).constant_value()
+                    out.append(const(t, base + d))
+                return out
+            with warnings.catch_warnings():
+                warnings.simplefilter("ignore")
+                act.set_simulated_effect(SimulatedEffect([fexp[t] for t in targets], fun))
+        p.add_action(act)
+    for f, op, c in meta["goal"]:
+        p.add_goal(cond(f, op, c))
+    return p
+
+
+def meta_well_typed(meta):
+    """copy-mode simulated effects must give an integer to an integer fluent"""
+    for a in meta["actions"]:
+        if a["sim"] is not None:
+            targets, mode, deltas, src = a["sim"]
+            if mode == "copy" and any(meta["fluents"][t][0] == "int" and meta["fluents"][src][0] == "real" for t in targets):
+                return False
+    return True
+
+
+def direct_oracle_family(ctx, stats, nprob, maxlen):
+    """instantaneous problems with simulated effects: outside the Coq models, judged by the agreement of the two REAL
+    validators, with `interpret` saying which verdict is right"""
+    from unified_planning.engines.plan_validator import SequentialPlanValidator, TimeTriggeredPlanValidator
+    from unified_planning.plans import SequentialPlan, TimeTriggeredPlan, ActionInstance
+    from unified_planning.engines.results import ValidationResultStatus
+    import warnings
+    rng = ctx.rng
+    d = stats["direct_oracle_only"] = {"problems": 0, "plans": 0, "valid": 0, "agree": 0, "sim_on_bounded": 0, "sim_on_unbounded": 0,
+                                       "sim_with_ordinary_effects": 0}
+    done = 0
+    while done < nprob:
+        meta = meta_problem(rng, with_sim=True)
+        if not meta_well_typed(meta) or not any(a["sim"] for a in meta["actions"]):
+            continue
+        done += 1
+        p = build_meta(meta)
+        d["problems"] += 1
+        for a in meta["actions"]:
+            if a["sim"]:
+                for t in a["sim"][0]:
+                    k, lo, hi, _ = meta["fluents"][t]
+                    d["sim_on_bounded" if (lo is not None or hi is not None) else "sim_on_unbounded"] += 1
+                d["sim_with_ordinary_effects"] += bool(a["effs"])
+        names = [a["name"] for a in meta["actions"]]
+        plans = [()]
+        for L in range(1, maxlen + 1):
+            plans += list(product(names, repeat=L))
+        rng.shuffle(plans)
+        acts = {a.name: a for a in p.actions}
+        with warnings.catch_warnings():
+            warnings.simplefilter("ignore")
+            for plan in plans[:30 if ctx.quick else 60]:
+                times = distinct_times(rng, len(plan))
+                order = sorted(range(len(plan)), key=lambda k: times[k])
+                right = interpret(meta, [plan[k] for k in order])
+                rec = {"meta": meta, "plan": list(plan), "times": [str(t) for t in times], "expected": right, "raised": None}
+                try:
+                    r1 = TimeTriggeredPlanValidator(environment=p.environment).validate(
+                        p, TimeTriggeredPlan([(times[k], ActionInstance(acts[plan[k]]), None) for k in range(len(plan))], p.environment))
+                    rec["tt"] = r1.status == ValidationResultStatus.VALID
+                except Exception as e:  # noqa
+                    rec["tt"], rec["raised"] = None, "tt:" + type(e).__name__ + ":" + str(e)[:100]
+                try:
+                    r2 = SequentialPlanValidator(environment=p.environment).validate(
+                        p, SequentialPlan([ActionInstance(acts[plan[k]]) for k in order], p.environment))
+                    rec["seq"] = r2.status == ValidationResultStatus.VALID
+                except Exception as e:  # noqa
+                    rec["seq"], rec["raised"] = None, (rec["raised"] or "") + " seq:" + type(e).__name__ + ":" + str(e)[:100]
+                d["plans"] += 1
+                d["valid"] += right is True
+                d["agree"] += rec["tt"] == rec["seq"]
+                payload = {"case": rec, "problem_text": str(p)}
+                if rec["raised"]:
+                    ctx.fail("oracle", "a validator raised on a problem with simulated effects: %s" % rec["raised"],
+                             ["c04", "simulated-effects", "raises"], payload, True)
+                elif rec["tt"] != rec["seq"]:
+                    wrong = "tt-wrong" if rec["tt"] != right else "seq-wrong"
+                    ctx.fail("oracle", "time-triggered (%s) and sequential (%s) validators disagree on a problem with simulated effects; "
+                             "the independent interpreter says %s" % (rec["tt"], rec["seq"], right),
+                             ["c04", "simulated-effects", wrong], payload, True)
+                elif rec["tt"] != right:
+                    ctx.fail("corr", "both validators agree (%s) but the independent interpreter says %s (interpreter or both validators wrong)"
+                             % (rec["tt"], right), ["c04", "simulated-effects", "interpreter-differs"], payload, False)
+    return d["plans"]
+
+
+def half_bounded_family(rng, n):
+    """meta problems without simulated effects as HandProblems (they go through the Coq models like every other problem)"""
+    out = []
+    while len(out) < n:
+        meta = meta_problem(rng, with_sim=False)
+        if not any(v[0] != "bool" and (v[1] is None) != (v[2] is None) for v in meta["fluents"].values()):
+            continue
+        out.append(sx.HandProblem(build_meta(meta), "half-bounded-%d" % len(out)))
     return out
 
 
@@ -114,7 +342,7 @@ def run(ctx):
              "lengths": {}, "time_order_differs_from_list_order": 0, "bounded_fluents": 0, "invariants": 0,
              "dropped_trivially_invalid": 0}
     nontrivial = set()
-    gens = [(hp, None) for hp in sx.corpus_problems() + corpus()]
+    gens = [(hp, None) for hp in sx.corpus_problems() + corpus() + half_bounded_family(rng, 6 if ctx.quick else 40)]
     for i in range(nprob):
         gens.append((None, {"max_actions": 2}))
     for pi, (hp, knobs) in enumerate(gens):
@@ -225,15 +453,17 @@ def run(ctx):
         elif code & 6:
             ctx.fail("corr", "both implementations agree with each other but not with the models (code %d; corr:C04)" % code,
                      ["c04", "model-drift"] + (diag.get(k, []) if code & 4 else []), payload, False)
+    n_direct = direct_oracle_family(ctx, stats, 8 if ctx.quick else 60, 2 if ctx.quick else 3)
     if not ok_proofs:
         ctx.proof_broken()
     stats["valid_ratio"] = round(stats["tt_valid"] / max(1, stats["plans"]), 3)
     ctx.finish({
-        "evaluations": len(cases),
+        "evaluations": len(cases) + n_direct,
+        "direct_oracle_only": n_direct,
         "distinct_nontrivial": len(nontrivial),
         "rule": "generated instantaneous problems (C01 grammar) + hand corpus; all plans of length <= tier bound over ground instances (capped), the empty plan, 2 longer plans, each scheduled at random pairwise distinct rational times in shuffled order; all VALID plans kept, trivially invalid ones sampled; non-trivial = VALID for a validator or length >= 2; distinct by (problem, plan, times)",
         "samples": [o[2] for o in owners[:3]],
         "distribution": stats,
-        "traces_validated_against_impl": 2 * len(cases),
+        "traces_validated_against_impl": 2 * (len(cases) + n_direct),
     }, "proof", assumptions=["initial state satisfies invariants and bounded types (else the problem is skipped and counted)",
                              "start times pairwise distinct and non-negative"])
